@@ -319,10 +319,16 @@ class World:
         return pos
 
     def delete_external(self, which):
-        names = sorted(os.listdir(self.logdir))
-        if len(names) < 2:
-            return False
-        n = names[:-1][which % (len(names) - 1)]
+        names = sorted(n for n in os.listdir(self.logdir) if n.startswith('t_'))
+        if which == -1:     # the newest file, once the writer is done with it (rolled over, nothing open)
+            if not names or self.writer.write_file:
+                return False
+            n = names[-1]
+            self.classes.add('newest log file deleted externally')
+        else:
+            if len(names) < 2:
+                return False
+            n = names[:-1][which % (len(names) - 1)]
         os.unlink(os.path.join(self.logdir, n))
         self.removed.add(n)
         self.snap.pop(n, None)
